@@ -156,7 +156,7 @@ func (w *world) cellPtr(r, c int) *tabular.Cell {
 type recCB struct {
 	w     *world
 	id    int
-	fails bool
+	fails int // 0 never; 1 a fresh error per invocation; 2 the world's one sentinel error value, every time
 	count int
 }
 
@@ -165,9 +165,15 @@ func (cb *recCB) UpdateProperties(po tabular.PropertyOwner) error {
 	// call itself, e.g. the row of AddRowItems, are only known to the driver then)
 	cb.w.cbraw = append(cb.w.cbraw, cbEvent{cb.id, po})
 	po.SetProperty(markKey{cb.id}, true)
-	if cb.fails {
+	switch cb.fails {
+	case 1:
 		cb.count++
 		return cb.w.newErr(fmt.Sprintf("CB%d:%d", cb.id, cb.count))
+	case 2:
+		if cb.w.sentinel == nil {
+			cb.w.sentinel = cb.w.newErr("SENT")
+		}
+		return cb.w.sentinel
 	}
 	return nil
 }
@@ -300,7 +306,7 @@ func (w *world) execMore(op M) bool {
 		}
 		w.handles = append(w.handles, c)
 	case "regcb":
-		cb := &recCB{w: w, id: len(w.cbs) + 1, fails: opIntDef(op, "fails", 0) == 1}
+		cb := &recCB{w: w, id: len(w.cbs) + 1, fails: opIntDef(op, "fails", 0)}
 		w.cbs = append(w.cbs, cb)
 		t := w.table(opInt(op, "t"))
 		o := w.owner(opMap(op, "owner"))
